@@ -80,10 +80,27 @@ class Fuzz:
         c["bytes_covered"] += len(raw)
         nbits = len(raw) * 8
         bits = range(nbits) if sample_bits is None else sorted(rng.sample(range(nbits), min(sample_bits, nbits)))
-        for bit in bits:
+        # three decode histories: (a) altered copies in byte order, nothing in between; (b) the genuine bytes decoded right
+        # before every altered copy (a peer relays the block, an altered copy follows); (c) altered copies of the transaction
+        # part first.  Decoding must not depend on what was decoded before.
+        history = c["blocks_fuzzed"] % 3
+        c["decode_history_" + "abc"[history]] = c.get("decode_history_" + "abc"[history], 0) + 1
+        order = list(bits)
+        if history == 2:
+            order = [b for b in order if b // 8 >= header_len] + [b for b in order if b // 8 < header_len]
+            try:
+                Block.deserialize(raw)
+            except Exception:
+                pass
+        for bit in order:
             m = bytearray(raw)
             m[bit // 8] ^= 0x80 >> (bit % 8)
             c["bit_flips"] += 1
+            if history == 1:
+                try:
+                    Block.deserialize(raw)
+                except Exception:
+                    pass
             self.offer(Block, raw, bytes(m), bid, states, now, w_base, ("flip", bit), header_len)
         for cut in range(len(raw)):
             c["truncations"] += 1
